@@ -106,6 +106,7 @@ type UnreachDecl struct {
 	From, To []string
 	Props    []string
 	Callers  bool // "callersof" form: To[0] may only be called (statically) from the functions in From
+	Frame    bool // "frame" form: the inferred write set of the From functions contains none of the components in To
 }
 
 type UniqueDecl struct {
@@ -125,7 +126,7 @@ type Lemma struct {
 var keywords = map[string]bool{
 	"func": true, "spec": true, "requires": true, "ensures": true, "assigns": true, "loop": true,
 	"props": true, "pure": true, "trusted": true, "invariant": true, "global": true, "lemma": true,
-	"at": true, "mode": true, "use": true, "chain": true, "unique": true, "unreachable": true, "holds": true, "callersof": true, "transitions": true, "sweep": true, "hyp": true, "concl": true, "package": true, "rec": true,
+	"at": true, "mode": true, "use": true, "chain": true, "unique": true, "unreachable": true, "holds": true, "callersof": true, "transitions": true, "frame": true, "sweep": true, "hyp": true, "concl": true, "package": true, "rec": true,
 }
 
 var funcHdr = regexp.MustCompile(`^func\s*(?:\(\s*(?:\w+\s+)?\*?\s*(\w+)\s*\))?\s*([\w$]+?(?:\$calls\([\w.$]+\))?)\s*(\(.*)$`)
@@ -313,6 +314,28 @@ func (cs *Contracts) parseFile(path string) error {
 				}
 			}
 			cs.Trans = append(cs.Trans, td)
+			cur, curInv, curLemma = nil, nil, nil
+		case "frame":
+			// frame <name> props C16 from <func keys> : <components, '*' suffix = prefix>
+			fs := strings.Fields(rest)
+			ud := UnreachDecl{Name: pkg + "." + fs[0], Frame: true}
+			mode := ""
+			for _, f := range fs[1:] {
+				switch f {
+				case "props", "from", ":":
+					mode = f
+					continue
+				}
+				switch mode {
+				case "props":
+					ud.Props = append(ud.Props, f)
+				case "from":
+					ud.From = append(ud.From, f)
+				case ":":
+					ud.To = append(ud.To, f)
+				}
+			}
+			cs.Unreach = append(cs.Unreach, ud)
 			cur, curInv, curLemma = nil, nil, nil
 		case "callersof":
 			// callersof <callee> props C01 : allowed caller keys   (every static call site of callee is in one of them)
